@@ -181,6 +181,33 @@ PROPS = {
     note='bounded: at most 2 roots per file; real values compared with the 1e-5 tolerance of MT real forests',
     design_ref='DESIGN.md 4/C14',
  ),
+ 'C16': dict(
+    level=MC, engines=[('rel', 'eng_c16'), ('asan', 'eng_c16')],
+    technique='bounded exhaustive enumeration of histories [legal prefix] misuse-call [same call again] [legal suffix] over every operation of the catalogue x every misuse class, executed on the real library (release and ASan builds); the call must raise MEDDLY::error with a documented code, all held edges and forests are re-read and audited afterwards',
+    rule='misuse menu: for each of 22 binary and 4 unary operations: operand(s) from another domain, result attached to a forest of another domain, result edge not attached, set where a relation is required (and vice versa), multi-terminal with EV+ operand; value misuse: wrong value type / out-of-range integers (6 magnitudes) through createConstant, minterm values and createEdgeForVar terms, foreign-domain minterms and collections, zero divisor / +infinity subtrahend met at each of 6 points, exhausted / default / empty iterators, edges whose forest was destroyed as operand, result, in evaluate, COPY, CARDINALITY; x 3 history shapes. non-trivial = every case',
+    bounds={'quick': '218 misuse calls x 3 history shapes, release and ASan', 'thorough': 'same'},
+    text='Exhaustive over the misuse menu x history shapes; error type and code, state integrity (every held edge re-read, every forest audited, references never over-released) and usability afterwards.',
+    note='bounded: the misuse menu is finite and hand-written from error.h and the throw sites; arithmetic on boolean forests and set algebra on integer forests are accepted by the library and not counted as misuse',
+    design_ref='DESIGN.md 4/C16',
+ ),
+ 'C17': dict(
+    level=MC, engines=[('rel', 'eng_c17'), ('asan', 'eng_c17')],
+    technique='bounded exhaustive enumeration of all lifecycle histories (INIT, CLEANUP, NEWDOM, NEWFOREST, BUILD, cross-forest operation, CLEAR, ITER, DESTROYFOREST, DESTROYDOM, USEDETACHED in 6 ways) up to a depth bound with canonicalised creation slots, executed on the real library (release and ASan builds), model-checked after every step',
+    rule='every enabled history of the stated length (<= 2 domains, 3 forests, 3 registers alive); after every step: edges of destroyed forests report no forest, surviving registers read back, surviving forests pass the full audit, forests of other domains keep their fingerprint across a destruction, forest ids strictly increase within one initialisation, using a detached edge raises a documented error (copying it is legal and yields an inert edge; iterating it yields nothing); held objects are destroyed before or after cleanup alternately. non-trivial = every history',
+    bounds={'quick': 'depth 7 (release), depth 6 (ASan)', 'thorough': 'depth 9 (release), depth 7 (ASan)'},
+    text='Exhaustive over lifecycle histories to the depth bound.',
+    note='bounded: depth 7/9; 2 shapes, 3 forest kinds',
+    design_ref='DESIGN.md 4/C17',
+ ),
+ 'C20': dict(
+    level=EX, engines=[('rel', 'eng_c20')],
+    technique='bounded exhaustive enumeration of event lists x initial sets x {by events, by levels x 5 splitting options} through pregen_relation + SATURATION_FORWARD on the real library, compared with the explicit closure under the union of the events and with REACHABLE_TRAD_NOFS on the union relation',
+    rule='event catalogue: every local relation on one variable (all 15 non-empty ones for size 2; the 1-point family + 4 more for size 3) x identity elsewhere, and single transitions on every pair of variables (thinned 1/3) x identity elsewhere; every event list of length 1 and 2 (ordered, with repetition) [3 in thorough on S3]; every initial set (all subsets <= 16 states, a fixed menu of 11 beyond); identity-reduced relation forest, set forests F and Q; each (list, mode) on a fresh library instance. non-trivial = reachable set differs from the initial set',
+    bounds={'quick': 'S3, S4 lists of length <= 2; S6 length 1', 'thorough': 'S6 length 2, S3 length 3, S7 length 1'},
+    text='Exhaustive over the stated event lists, initial sets and partitioning modes.',
+    note='bounded: 2-3 variables; relation forest identity-reduced only (the semantics pregen_relation assumes)',
+    design_ref='DESIGN.md 4/C20',
+ ),
 }
 
 NOT_YET = {}
